@@ -4,6 +4,7 @@ the recorded traces with TLC against the trace specification, write evidence."""
 import concurrent.futures as cf
 import json
 import os
+import re
 import time
 
 from . import common as C
@@ -40,6 +41,13 @@ def run_job(job, work):
                 raise C.Machinery("data race inside the harness itself (no frame of the code under test):\n" + job.race_text)
             job.race_report = rp
         if status != "OK":
+            clean = out
+            i = max(clean.rfind("panic:"), clean.rfind("fatal error:"))
+            if i >= 0 and (C.REPO + "/") in clean[i:]:
+                # a goroutine of the code under test panicked (its frames are on the stack): the pool would have died
+                sp = os.path.join(work, job.name + ".script.json")
+                rp = C.save_replay("crash", [sp], "the code under test panicked while driver %s ran:\n%s" % (job.name, clean[i:i + 4000]))
+                raise C.Violation("the code under test crashed (panic) during %s: %s" % (job.name, clean[i:i + 600].replace("\n", " | ")), rp)
             raise C.Machinery("driver %s did not finish: status=%r rc=%d\n%s" % (job.name, status, rc, out[-3000:]))
         job.trace = tp
     tp = job.trace
@@ -338,7 +346,7 @@ c04 = pool_prop(
     "at random points of valid sessions; compared: accepted exactly if unaltered",
     lambda tier: [("VipStoreMC", "VipStoreMC_nonce.cfg")] + ([("VipPoolMC", "VipPoolMC_bill_q.cfg")] if tier == "quick" else [("VipPoolMC", "VipPoolMC_bill.cfg")]),
     cfg=dict(walletcase=True),
-    weights=dict(forged=45, update=20, sleep=6, legacy=6, addnode=8, withdraw=6, credit=3),
+    weights=dict(forged=40, forgedrun=5, update=20, sleep=6, legacy=6, addnode=8, withdraw=6, credit=3),
     extra_jobs=lambda s, tier, work: stack_jobs("c04", "C04", s, tier, work))
 
 c05p = None
@@ -349,7 +357,7 @@ c06 = pool_prop(
     "followed by the owner's request with the same (smaller-or-equal, fresh) nonce; compared: complete projected state "
     "before/after the refused request, host registrations, agent calls, and the owner's acceptance",
     lambda tier: [("VipStoreMC", "VipStoreMC_nonce.cfg")] + ([("VipPoolMC", "VipPoolMC_bill_q.cfg")] if tier == "quick" else [("VipPoolMC", "VipPoolMC_bill.cfg")]),
-    weights=dict(forged=45, stale=8, update=20, sleep=6))
+    weights=dict(forged=40, forgedrun=8, stale=8, update=20, sleep=6))
 
 c07 = pool_prop(
     "c07", "C07",
